@@ -104,6 +104,9 @@ class Ctx:
     def violation(self, key, msg, case):
         """Record a violation.  ``key`` is a mechanism signature (stable, no
         random values); ``case`` must be enough to replay."""
+        extra = getattr(self, "case_extra", None)
+        if extra and isinstance(case, dict):
+            case = {**case, **extra}  # what the shard did before its first case and a replay has to do again
         v = self.violations.setdefault(key, {"count": 0, "msg": str(msg)[:1000], "cases": []})
         v["count"] += 1
         if len(v["cases"]) < self.MAX_VIOLATION_CASES_PER_KEY:
